@@ -216,15 +216,17 @@ class DirectObjectAccess:
     def py__mro__accesses(self):
         return tuple(self._create_access_path(cls) for cls in self._obj.__mro__[1:])
 
-    def py__getitem__all_values(self):
-        if isinstance(self._obj, dict):
-            return [self._create_access_path(v) for v in self._obj.values()]
-        if isinstance(self._obj, (list, tuple)):
-            return [self._create_access_path(v) for v in self._obj]
+    def py__getitem__all_values(self, *, safe=True):
+        # Get rid of side effects, we won't call a custom `__iter__`/`values`.
+        if not safe or type(self._obj) in ALLOWED_GETITEM_TYPES:
+            if isinstance(self._obj, dict):
+                return [self._create_access_path(v) for v in self._obj.values()]
+            if isinstance(self._obj, (list, tuple)):
+                return [self._create_access_path(v) for v in self._obj]
 
         if self.is_instance():
             cls = DirectObjectAccess(self._inference_state, self._obj.__class__)
-            return cls.py__getitem__all_values()
+            return cls.py__getitem__all_values(safe=safe)
 
         try:
             getitem = self._obj.__getitem__
